@@ -35,6 +35,7 @@ def gen_model(rng, T, smax, vals):
                 if k + 1 < T:
                     qq[k + 1][l2] = list(qq[k + 1][l1])
         c['dup'] = dup
+    c['again'] = rng.random() < 0.3
     return c
 
 
@@ -91,6 +92,11 @@ def run_impl(case):
     hmm = HMM(S=lambda t, k: [label(k, canon(case, k, l)) for l in range(ns[k])],
               Q=lambda s1, s2, k, t: sign * float(qq[k + 1][idx(k, s1)][idx(k + 1, s2)]),
               P=lambda s, y, k, t: sign * float(p[k][idx(k, s)]), log=case['log'])
+    if case.get('again'):                         # the same track object was decoded before, with another model over the same candidate lists
+        h0 = HMM(S=lambda t, k: [label(k, canon(case, k, l)) for l in range(ns[k])],
+                 Q=lambda s1, s2, k, t: sign * 1.0,
+                 P=lambda s, y, k, t: sign * float(p[k][::-1][idx(k, s)] if not case.get('dup') else 1.0), log=case['log'])
+        h0.estimate(tr, 'o', verbose=0)
     hmm.estimate(tr, 'o', verbose=0)
     # the cost tables the implementation itself used
     pc = [[-hmm.Plog(label(k, l), None, k, tr) for l in range(ns[k])] for k in range(T)]
